@@ -288,5 +288,6 @@ Definition run_c06_parse (args : list sx) : sx :=
          end)
   | _ => None end).
 
-Definition c06_table : list (bytes * (list sx -> sx)) :=
+(* the dispatch table c06_table is assembled in C06_Load.v (it adds the loader kinds) *)
+Definition c06_parse_table : list (bytes * (list sx -> sx)) :=
   [ (bs "c06.parse", run_c06_parse) ].
